@@ -4,7 +4,6 @@ import (
 	"context"
 	"fmt"
 	"runtime"
-	"strings"
 	"sync"
 	"sync/atomic"
 	"testing/synctest"
@@ -142,7 +141,9 @@ type Sched struct {
 	Adopted   int
 	// multi-case selects whose cases were tried in a drawn, non-source order
 	SelectReorders int
-	StableCount    int
+	// select cases found ready on entry (reach probe), by site
+	SelectHits  map[string]int
+	StableCount int
 }
 
 type Violation struct {
@@ -163,6 +164,7 @@ var (
 func init() {
 	verifsim.Hook = globalHook
 	verifsim.SelectHook = globalSelectHook
+	verifsim.SelectHitHook = globalSelectHit
 	verifsim.RootProbe = func() int {
 		s := curSched.Load()
 		if s == nil {
@@ -192,6 +194,18 @@ func globalSelectHook(site string, n int) int {
 		s.Note("select order %d at %s", k, site)
 	}
 	return k
+}
+
+//go:norace
+func globalSelectHit(site string, i int) {
+	s := curSched.Load()
+	if s == nil {
+		return
+	}
+	if s.SelectHits == nil {
+		s.SelectHits = map[string]int{}
+	}
+	s.SelectHits[site+"/case"+itoa(i)]++
 }
 
 //go:norace
@@ -532,15 +546,13 @@ func firstLine(s string) string {
 	return s
 }
 
-// lagSafe: no task is parked right in front of a select (it may have armed a timer for it:
-// letting time pass there could make two cases of that select ready at once).
+// lagSafe: may virtual time pass although tasks are runnable? (A task parked right in front of a
+// select, with its timer already armed, used to forbid it: two cases could become ready at once and
+// the runtime would pick one at random. The order is a tape draw now, see globalSelectHook.)
 //
 //go:norace
 func (s *Sched) lagSafe() bool {
 	for _, t := range s.tasks {
-		if t.parked() && strings.HasSuffix(t.site, "#select") {
-			return false
-		}
 		// a goroutine spawned by the code under test (e.g. a subscription helper) is part of some caller's
 		// operation: delaying it would delay that caller. Waiting for a busy lock is not the scheduler's doing.
 		if s.LagStrict && t.adopted && t.parked() && t.kind != kLockWait {
